@@ -187,7 +187,13 @@ def run(ctx):
         total_eval += ctl["executions"] + st["executions"]
         total_distinct += ctl["distinct_schedules"]
 
+    compile_probe = None
+    if ctx.prop == "C14":
+        from . import compile_probe as cp
+        compile_probe = cp.run(ctx, "C14")
+
     ctx.coverage.update({
+        "compile_probe": compile_probe,
         "concurrent_stage": concurrent,
         "evaluations": total_eval,
         "distinct_nontrivial": total_distinct,
